@@ -28,7 +28,39 @@ def extra_result_table(tier, seed):
                                                accessor_sample=real_cmp[:2]))
 
 
+def extra_config_probe(tier, seed):
+    """C09: the process-wide default capacity, probed in fresh subprocesses (real vs model)."""
+    bins = vlib.build_harness((), bins=("director", "config_probe"))
+    seqs = ["-", "0", "5", "0,5,7", "3,3", "1", "7,0,2"]
+    if tier == "thorough":
+        seqs += ["2", "4,4,4", "0,0,9", "64", "33"]
+    viol, rows = [], []
+    for q in seqs:
+        real = vlib.sh([bins["config_probe"], q], check=True).stdout.strip()
+        model = vlib.sh([vlib.DRIVER, "--config", q], check=True).stdout.strip()
+        rows.append(dict(sets=q, real=real, model=model))
+        if real != model:
+            viol.append(dict(what="default mailbox capacity / set_default differs", input=q, real=real, model=model))
+    return dict(violations=viol, coverage=dict(config_sequences=len(seqs), config_rows=rows[:3]))
+
+
 PROPS = {
+    "C01": dict(
+        props_file="Props/C01.v",
+        families=[("core", NONE, 150), ("time", NONE, 100), ("fault", NONE, 50)],
+        projection="C01", monitors=["C01"],
+    ),
+    "C02": dict(
+        props_file="Props/C02.v",
+        families=[("core", NONE, 150), ("time", NONE, 100)],
+        projection="C02", monitors=["C02"],
+    ),
+    "C09": dict(
+        props_file="Props/C09.v",
+        families=[("core", NONE, 150), ("time", NONE, 100), ("hostile", NONE, 50)],
+        projection="C09", monitors=["C09"],
+        extra=[extra_config_probe],
+    ),
     "C04": dict(
         props_file="Props/C04.v",
         families=[("core", NONE, 150), ("fault", NONE, 150)],
